@@ -3,7 +3,7 @@
 cd /verif
 out=seeded/MATRIX.txt
 touch $out
-for d in seeded/C*-[a-n] seeded/fixrevert-*; do
+for d in seeded/C*-[a-p] seeded/fixrevert-*; do
   [ -f $d/patch.diff ] || continue
   id=$(basename $d)
   grep -q "^$id " $out && continue
